@@ -10,6 +10,7 @@ Check @interpretation_stable.
 Check @attribute_readings.
 Check @parsed_field_flags.
 Check @used_lifetimes_exact.
+Check @array_lens_exact.
 Print Assumptions parse_complete.
 Print Assumptions option_is_recognised.
 Print Assumptions print_parse_roundtrip.
@@ -18,3 +19,4 @@ Print Assumptions interpretation_stable.
 Print Assumptions attribute_readings.
 Print Assumptions parsed_field_flags.
 Print Assumptions used_lifetimes_exact.
+Print Assumptions array_lens_exact.
